@@ -511,6 +511,14 @@ def normalise(modname: str, tree: ast.AST, mutable_attrs: set[str] | None = None
     paths.MUTABLE_ATTRS = mutable_attrs
     log: dict[str, dict[str, str]] = {}
     strip_annotations(tree)
+    try:
+        from .unmove import unmove
+
+        moved = unmove(tree, ref)
+    except RecursionError:
+        moved = []
+    if moved:
+        log["<closures re-nested>"] = {str(i): s for i, s in enumerate(moved)}
     nested = {q: {n.name for n in ast.walk(r) if isinstance(n, FuncT) and n is not r} for q, r in ref.items()}
     inl_sites = inline_new_helpers(tree, set(ref), nested)
     if inl_sites:
